@@ -383,8 +383,11 @@ def plan_construction(repo: Repo, res: CheckResult) -> None:
     gf = _meth(ci, "_generate_field_linking_to_sub_plan")
     res.evaluated("plan:field-linking", True)
     top = gf.body[0]
-    pref = isinstance(top, ast.If) and norm(top.test) == "linking.coercer is not None" and \
-        any(isinstance(a, ast.Assign) and norm(a.value) == "linking.coercer" for a in top.body)
+    # (two-armed conditionals arrive in positive polarity, core._canonical_polarity: the user's coercer is used in the arm where
+    # `linking.coercer is None` does NOT hold)
+    pref = isinstance(top, ast.If) and (
+        (norm(top.test) == "linking.coercer is None" and any(isinstance(a, ast.Assign) and norm(a.value) == "linking.coercer" for a in top.orelse))
+        or (norm(top.test) == "linking.coercer is not None" and any(isinstance(a, ast.Assign) and norm(a.value) == "linking.coercer" for a in top.body)))
     creq = [c for c in ast.walk(gf) if isinstance(c, ast.Call) and norm(c.func) == "CoercerRequest"]
     kws = {k.arg: norm(k.value) for k in creq[0].keywords} if len(creq) == 1 else {}
     req_ok = kws == {"src": "linking.source", "ctx": "request.ctx", "dst": "request.dst.append_with(loc)"}
